@@ -363,10 +363,15 @@ def check_C12(ctx):
     snap_trace(ctx, "faults2-pods", "faults2-pods", 2, 2, 5, 15000 if ctx.quick else 300000, ["P_C12"], 122)
     # history clauses: stale caches, several revisions in flight, exact census at the fixed point
     cluster_check(ctx, ["B_C12"], ["P_C12"], invariants=["StatusTruth"], properties=[], scale=0.7, sim_claims=2)
+    # the exact census at the fixed point must also be reached when only the work queue drives the controller (the echo of
+    # its own status write is what repairs a status computed from a stale cache)
+    cluster_check(ctx, ["B_C12", "B_C02", "B_C16"], ["P_C12"], invariants=["StatusTruth"], properties=["Converges"], scale=0.5, queue=True)
 
 
 def check_C14(ctx):
     engine_check(ctx, "C14", lambda r: r["sn"]["set"][4] == "Parallel" and len(r["calls"]) > 2, 14)
+    # sets with claim templates: a claim that is retained, lagging in the cache or being deleted does not hold the others back
+    snap_trace(ctx, "claims", "claims", 2, 2, 5, 40000 if ctx.quick else 600000, ["P_C14"], 141)
 
 
 def own_cfg(mode, npods, invs):
